@@ -13,20 +13,26 @@ open CoCo.Gen (InstrRow)
 
 /-! ### boolean reflection -/
 
-def pkgBytes (p : Pkg) : Option Bytes := do
-  let a ← emitValue p.opCode
-  let b ← emitValue p.postByte
-  let c ← emitValue p.additional
-  pure (a ++ b ++ c)
+/-- the bytes a translated package emits after `fitWidth` (`none`: rejected, or `get_binary_array` fails) -/
+def fittedBytes (r : InstrRow) (pkg : Pkg) : Option Bytes :=
+  match fitPkg r pkg with
+  | .ok p' => pkgBytes p'
+  | _ => none
 
-theorem stmtBytes_eq_pkgBytes (s : Stmt) : stmtBytes s = pkgBytes s.pkg := rfl
+theorem fittedBytes_some {r : InstrRow} {pkg : Pkg} {bytes : Bytes} (h : fittedBytes r pkg = some bytes) :
+    ∃ p', fitPkg r pkg = .ok p' ∧ pkgBytes p' = some bytes := by
+  unfold fittedBytes at h
+  split at h
+  · exact ⟨_, by assumption, h⟩
+  · cases h
 
 /-- decidable version of `Encodes` -/
 def encCheck (o : Operand) (r : InstrRow) (operand : Spec.MC6809.Operand) : Bool :=
   match translateOperand o r with
   | .ok pkg =>
-    match pkgBytes pkg with
-    | some bytes => bytes.length == pkg.size && decide (decode bytes = some (⟨opOf r.mnemonic, operand⟩, bytes.length))
+    match fittedBytes r pkg with
+    | some bytes => !pkg.needsRes && bytes.length == pkg.size &&
+        decide (decode bytes = some (⟨opOf r.mnemonic, operand⟩, bytes.length))
     | none => false
   | .error _ => false
 
@@ -37,15 +43,16 @@ theorem encodes_of_check {o : Operand} {r : InstrRow} {operand : Spec.MC6809.Ope
   · rename_i pkg ht
     split at h
     · rename_i bytes hb
-      simp only [Bool.and_eq_true, beq_iff_eq, decide_eq_true_eq] at h
-      exact ⟨pkg, bytes, ht, fun s hs => by rw [stmtBytes_eq_pkgBytes, hs, hb], h.1, h.2⟩
+      simp only [Bool.and_eq_true, beq_iff_eq, decide_eq_true_eq, Bool.not_eq_true'] at h
+      obtain ⟨p', hf, hb'⟩ := fittedBytes_some hb
+      exact ⟨pkg, bytes, ht, h.1.1, emitted_of_fitPkg hf hb', h.1.2, h.2⟩
     · exact absurd h (by simp)
   · exact absurd h (by simp)
 
-/-- size and bytes of a translated operand (for finding witnesses) -/
+/-- size and bytes of a translated and fitted operand (for finding witnesses) -/
 def sizeAndBytes (o : Operand) (r : InstrRow) : Option (Nat × Bytes) :=
   match translateOperand o r with
-  | .ok pkg => (pkgBytes pkg).map (fun b => (pkg.size, b))
+  | .ok pkg => (fittedBytes r pkg).map (fun b => (pkg.size, b))
   | .error _ => none
 
 /-! ### TFR / EXG -/
@@ -196,8 +203,8 @@ theorem enc_psh {o : Operand} {r : InstrRow} {c : Nat} {regs : List Str} (u : Bo
   have htr := translateSpecial_psh hm hm2 hc (cell_lt hlk) ht hne hreg'
   have hp := pshMask_lt regs hreg'
   rw [pshMask_eq_dsMask u regs hreg] at htr hp
-  refine encodes_of (pb := [dsMask u regs]) (ad := []) hlk (by simpa [translateOperand, hk] using htr) rfl
-    (emit_hint2 _ hp) (by simp) (by simp [hs]) ?_
+  refine encodes_of (pb := [dsMask u regs]) hlk (by simpa [translateOperand, hk] using htr) rfl rfl
+    (emit_hint2 _ hp) rfl (by simp [hs]) ?_
   simp [decodeTail]
 
 end CoCo.Asm
